@@ -96,7 +96,7 @@ struct ctl_server
         }
         else
         {
-            sockaddr_in a{}; a.sin_family = AF_INET; a.sin_addr.s_addr = htonl(INADDR_LOOPBACK);
+            sockaddr_in a{}; a.sin_family = AF_INET; a.sin_addr.s_addr = htonl(INADDR_ANY);      // every loopback address (127.0.0.x)
             ::bind(lfd, reinterpret_cast<sockaddr *>(&a), sizeof a); ::listen(lfd, 4);
             socklen_t l = sizeof a; getsockname(lfd, reinterpret_cast<sockaddr *>(&a), &l); port = ntohs(a.sin_port);
         }
